@@ -22,7 +22,7 @@ lines = ['### 10.5 Sensitivity: seeded changes and the checks that catch them', 
          'change (applies, pinned tests pass, demonstration fails with it and passes without it) and runs the quick tier of the checks',
          'against it; `seeded/<id>/meta.json` and `seeded/README.md` have the details.  Changes whose mechanism disappeared under a',
          'repository fix were re-based by hand where the slip still makes sense and marked obsolete where it does not.  The first run',
-         'of the fourth wave against the checks as they stood caught 19 of 60, the first run of the fifth 11 of 27; every miss was traced to a',
+         'of the fourth wave against the checks as they stood caught 19 of 60, the first run of the fifth 11 of 27, the first run of the sixth 9 of 30; every miss was traced to a',
          'generator that did not reach the input (or the call sequence) - or, twice in wave 5, to an oracle that was too weak (C10: two spellings of',
          'one text satisfied every law while being unequal; C01: no assertion about numbers of 1e15 and more under &) - and the checks were extended;',
          'the table shows the state after that.', '',
@@ -67,7 +67,12 @@ lines += ['What the rounds taught (each item is a lane that now exists because a
           '  the literal that spells the same text (C10), every Excel error value under IFERROR (C13), long-mantissa floats read back exactly and workbooks of',
           '  12+ sheets x 13 columns (C02), blank-only texts and python-float words among COUNT arguments (C11), blanks inside criteria and texts inside',
           '  sum ranges (C12), keys that differ in the 13th digit, computed (float) INDEX positions, a zero index outside the area (C14), line breaks under',
-          '  SEARCH wildcards (C17), sign runs in front of a ROUND operand (C16);',
+          '  SEARCH wildcards (C17), sign runs in front of a ROUND operand (C16); digit-only and quoted titles and blank cells as entries (C03), overrides',
+          '  in two- and three-letter columns addressed by letters and digit-only titles under set_cells (C04), every pairing of range shapes under SUMIF and',
+          '  long chains inside a function argument (C06), the file format\'s own `_xHHHH_` spelling as text (C07), a worksheet without cells and mixed',
+          '  address spellings (C08), several whole-column areas in one formula, a blank workbook and a target file named without a directory (C09), a',
+          '  blank months cell (C15), astral sheet titles and texts with `=` behind leading blanks (C18), `%` and braces in reported fragments and titles,',
+          '  calls behind 8 000 characters of text (C19), arguments of an unusual kind in every position of every helper (C20);',
           '* *defects of the unchanged tree that wave 4 surfaced* (remarks of the authors, or found by the extended generators) are in 10.3 / Appendix C 24;',
           '* *harness faults found by seeded changes* are listed in Appendix C (items 9-14, 16-18).', '']
 text = '\n'.join(lines)
